@@ -34,4 +34,10 @@ def saveSnapshot : List String := ["heads", "len", "entries"]
 log is copied under the index lock. -/
 def updateIndex : List String := ["lock", "copy"]
 
+/-- `BaseStore.Load` (`Store.load`): the bytes cached under `_localHeads` are decoded into the local
+heads, those under `_remoteHeads` into the remote heads, and the heads to load are the local ones
+followed by the remote ones (C05: everything the cached heads cover comes back). -/
+def loadDecodes : List (String × String) := [("localHeadsBytes", "localHeads"), ("remoteHeadsBytes", "remoteHeads")]
+def loadHeads : String := "append(localHeads, remoteHeads...)"
+
 end Orbit.Order
